@@ -13,6 +13,9 @@ ENGINES["thr"] = {"path": "harness/src/thr.rs",
 ENGINES["row"] = {"path": "harness/src/row.rs",
     "kind": "one DWARF row at a time through real CFI bytes (all three presentations): systematic product of CFA register x offset grid x return-address rule x frame-pointer rule, then random fill, each with 6 register/stack states as first and caller frame; impl vs Lean model vs the DWARF specification of the row where the C05 theorems apply"}
 
+ENGINES["scn"] = {"path": "harness/src/scn.rs (+ prog.rs)",
+    "kind": "whole walks over synthesized programs with ground truth: functions from the standard prologue/epilogue shapes with real instruction bytes and the CFI rows that exactly describe every instruction boundary (x86-64: frame-pointer based, frameless with pushes/allocation incl. rbp saved and clobbered, leaf, noreturn tail call; aarch64: stp-pre-index and sub/stp/add frames, leaf, return-address signing with DW_CFA_AARCH64_negate_ra_state), call chains of depth 1-7, every interruption point of the innermost frame, three presentations, both allocation policies, missing unwind info in five ways (C04), every truncation cut (C11), relocation/presentation twins (C08/C12). Ground truth from a machine-state simulator, re-validated step by step by the Lean driver's dwarfSpec before it is used"}
+
 NOT_APPLICABLE = {}
 
 _NOTE = ("Trusted: Lean kernel; axioms propext/Classical.choice/Quot.sound only (audited per theorem on every run); "
@@ -37,10 +40,10 @@ PROPS = {
     },
     "C11": {
         "lean": ["FH.Props.C11"],
-        "engines": ["rule", "hist"],
+        "engines": ["rule", "hist", "scn"],
         "level_text": "Theorems: no null frame, error address is an unreadable address, for all rules/registers/readers; correspondence + direct oracle using a recording stack reader.",
         "level_note": _NOTE,
-        "statement": "Rule-based steps never return a null frame; an Err(CouldNotReadStack(a)) names an address whose read failed.",
+        "statement": "Rule-based steps never return a null frame; an Err(CouldNotReadStack(a)) names an address whose read failed; truncating the readable stack at any cut yields a prefix of the frames followed by such an error (walk-level theorem for arbitrary rule assignments, both architectures); a null return address is the end of the stack on every path.",
     },
     "C16": {
         "lean": ["FH.Props.C16"],
@@ -98,5 +101,33 @@ PROPS = {
         "level_text": "Theorems (both architectures): if a row of the domain (CFA = sp|fp + k; return address / frame pointer undefined, same value or saved at a CFA-relative slot) is compressed into a cacheable rule, executing the rule performs exactly the step DWARF prescribes (dwarfSpec over mathematical integers); the generic evaluator performs exactly that step too; hence the two paths agree; 'return address undefined' ends the stack. framehop's deliberate refusals (null return address, no progress, 64-bit overflow, frame-pointer sanity checks, aarch64 caller frames needing a recoverable fp) are the explicit hypotheses. All narrowing (/8, /16, u16, i16, i64 overflow) is in the model and discharged by omega. Tie: rows written as real CFI bytes and unwound through Unwinder::unwind_frame; the Lean driver decides per case whether the theorems' hypotheses hold and, if so, the harness compares the implementation with dwarfSpec directly.",
         "level_note": _NOTE + " DWARF expressions are outside the model (rows with expressions are modelled as 'cannot evaluate', which is what the harness's CFI writer emits for them). Known finding F14 (aarch64 first frame treats an undefined return address as same-value; documented choice in the source) is proved as C05_a64_first_frame_undefined_ra_counterexample and excluded from the domain.",
         "statement": "Compressed rule = generic evaluation = DWARF semantics of the row, for all rows of the domain, all registers, all stack contents with readable slots.",
+    },
+    "C01": {
+        "lean": ["FH.Props.C01"],
+        "engines": ["scn", "row", "hist"],
+        "level_text": "Theorems: unwind_frame on a fresh cache is stepRow of the row the module's CFI resolves to; stepRow performs exactly the DWARF step of the row on a real stack (both architectures, via the C05 theorems for the compressed and the generic path); a walk over any true call chain (unbounded depth) yields exactly its return addresses with the caller's registers after each step and ends with Ok(None) at the root (C01_x64_walk, induction over the chain); the cache state is irrelevant (C06). Tie: synthesized programs with simulator ground truth, every instruction boundary, three presentations, both policies; each generated step is first confirmed by the Lean driver's dwarfSpec (generator check), then the implementation is judged against it.",
+        "level_note": _NOTE + " The aarch64 walk is covered by the per-step theorem C01_a64_exact_step (the chain induction is written out for x86-64). Known findings: F14 (aarch64 first frame, undefined RA) and F21 (aarch64: a frame-pointer-rule step whose restored fp is null ends the walk without reporting the caller, e.g. a root running with fp = 0).",
+        "statement": "Exact chain => exact walk, for all chains, rows of the domain, registers and stack contents.",
+    },
+    "C04": {
+        "lean": ["FH.Props.C04"],
+        "engines": ["scn", "hist", "rule"],
+        "level_text": "Theorems: the decision table (no module / no or unusable unwind data / failed table lookup => fallback rule; address covered by no FDE => the architecture's uncovered rule = leaf in the first frame, frame pointer step otherwise), the fallback rule equals the platform frame-pointer convention under framehop's sanity checks (both architectures), null frame pointer or null return address completes with Ok(None), and a walk over any well-formed frame-record chain (any length, spacing, alignment) yields exactly the records' return addresses and ends with Ok(None) (induction over the chain). Tie: scn with unwind info removed in five ways + hist.",
+        "level_note": _NOTE + " PE (.pdata) and compact-unwind reasons are added with those formats' models.",
+        "statement": "Fallback/leaf decision table and frame-pointer chain walk.",
+    },
+    "C08": {
+        "lean": ["FH.Props.C08"],
+        "engines": ["scn", "hist"],
+        "level_text": "Theorems: the module search is translation invariant (same index and relative address for range, base and address moved together), the unwind plan does not look at mapped addresses, hence the rule for a relocated address under relocated modules is the original rule; stack relocation is proved at the level of the DWARF step (dwarfSpec, identified with both execution paths by C05) for consistently relocated stack words (partial: the whole-walk statement under stack relocation is established by the engine's relocation twins, not by a theorem). Tie: the same program mapped at four different load addresses / stack placements / presentations (incl. crossing 2^63, non-zero stated base, range starting above the base, absolute/pc-relative/text-relative pointer encodings) must unwind to the same frames up to the shifts.",
+        "level_note": _NOTE,
+        "statement": "Position independence: module relocation (full, model level) and stack relocation (step level).",
+    },
+    "C12": {
+        "lean": ["FH.Props.C12"],
+        "engines": ["scn", "hist", "row"],
+        "level_text": "Theorems: the three presentations resolve every relative address identically (hence the same plan); for pairwise disjoint FDEs in any section order the lookup finds the FDE covering the address (stable sort by start + last-start-not-above search, proved against containment); section order is irrelevant; addresses no FDE covers never get a row, in every presentation. Tie: every generated module is written in one of the three presentations with shuffled FDE order, several CIEs and mixed pointer encodings; the scn twins compare presentations directly.",
+        "level_note": _NOTE + " gimli's EhHdrTable::lookup is trusted to return the last table entry whose initial location is not above the address (first entry if none); the table is written sorted, as linkers do.",
+        "statement": "Same CFI, any presentation.",
     },
 }
